@@ -48,6 +48,9 @@
 #ifndef VH_DEFMODE
 #define VH_DEFMODE 0
 #endif
+#ifndef VH_VIRT
+#define VH_VIRT 0		// 1: the callbacks of the injected classes are declared virtual (the state classes override them)
+#endif
 #ifndef VH_COMPAT
 #define VH_COMPAT 0		// 1: only the basic API forms (fallback build used when a rarely used form does not compile / link: the
 #endif					//    failure itself is reported, and the rest of the library can still be checked)
@@ -666,7 +669,7 @@ template <typename TOwner> struct PlanKeeper<true, TOwner> {
 
 // m: ffsm2::Method value; s: class index (NONE for root); j: 0 own, 1.. injection; K: control kind
 template <int K, typename TControl>
-static void deliver(int m, int s, int j, TControl& control, int selfOk, int evOk) {
+static void deliver(int m, int s, int j, TControl& control, int selfOk, int evOk, unsigned visits) {
 	Provider& pv = g_prov;
 	++pv.deliveries;
 
@@ -683,7 +686,7 @@ static void deliver(int m, int s, int j, TControl& control, int selfOk, int evOk
 #else
 	g_rec.kv("ctx", (&control.context() == &machine.context() && &control._() == &machine.context()) ? 1 : 0);
 #endif
-	g_rec.kv("self", selfOk); g_rec.kv("ev", evOk);
+	g_rec.kv("self", selfOk); g_rec.kv("ev", evOk); g_rec.kv("uv", visits);
 	emitTr("req", control.request());
 #if VH_HISTORY && VH_COMPAT
 	emitTr("cprev", machine.previousTransition());
@@ -753,9 +756,22 @@ static int selfOk(const T* self) {
 }
 static int evOk(const Ev& e) { return &e == g_evPtr ? 1 : 0; }
 
+// user state: every class of the machine (head, states, injections) carries a counter of the callbacks delivered to that very
+// object; it is part of what a copy-constructed machine must carry over
+template <typename TOwner> struct Visits { mutable unsigned visits = 0; };
+#if VH_VIRT
+#define VH_VIRTUAL virtual
+#define VH_NOEXCEPT noexcept
+#else
+#define VH_VIRTUAL
+#define VH_NOEXCEPT
+#endif
+
 #define VH_LAYER(NAME, BIT, KIND, SIG, EVOK, CONSTQ)																		\
 	template <typename B, typename T, int SI, int JI, bool On> struct L_##NAME : B {										\
-		void NAME SIG CONSTQ { deliver<KIND>(BIT, SI, JI, c, selfOk(static_cast<const T*>(this)), EVOK); }					\
+		VH_VIRTUAL void NAME SIG CONSTQ VH_NOEXCEPT {																		\
+			const T* const self = static_cast<const T*>(this);																\
+			deliver<KIND>(BIT, SI, JI, c, selfOk(self), EVOK, ++self->Visits<T>::visits); }									\
 	};																														\
 	template <typename B, typename T, int SI, int JI> struct L_##NAME<B, T, SI, JI, false> : B {};
 
@@ -795,7 +811,7 @@ struct Chain14 : Chain12<B, T, SI, JI, MASK> {};
 
 // injections: Inj<SI, J> is the J-th injection of state SI (root: NONE)
 template <int SI, int J>
-struct Inj : Chain12<FSM::State, Inj<SI, J>, SI, J, ALLMASK> {};
+struct Inj : Chain12<FSM::State, Inj<SI, J>, SI, J, ALLMASK>, Visits<Inj<SI, J>> {};
 
 template <int SI, int K> struct StBase;
 template <int SI> struct StBase<SI, 0> { using Type = FSM::State; };
@@ -806,10 +822,10 @@ template <int SI> struct StBase<SI, 3> { using Type = FSM::StateT<Inj<SI, 1>, In
 constexpr unsigned classMask(int i) { return injCount(i) >= 2 ? ALLMASK : vh_defmask(i); }
 
 template <int I>
-struct St : Chain12<typename StBase<I, injCount(I)>::Type, St<I>, I, 0, classMask(I)> {};
+struct St : Chain12<typename StBase<I, injCount(I)>::Type, St<I>, I, 0, classMask(I)>, Visits<St<I>> {};
 
 template <int D>
-struct RootT : Chain14<typename StBase<NONE, injCount(NONE)>::Type, RootT<D>, NONE, 0, classMask(NONE)> {};
+struct RootT : Chain14<typename StBase<NONE, injCount(NONE)>::Type, RootT<D>, NONE, 0, classMask(NONE)>, Visits<RootT<D>> {};
 
 //------------------------------------------------------------------------------ instances
 
